@@ -51,7 +51,7 @@ def reachable_rows(repo, weights, rows, sites):
             reach[nm] = reach.get(nm, 0) | mask(zero)
     for s in sites:
         if isinstance(s.lut, ast.Name) and s.lut.id != 'sp':
-            zero = tuple(k for k, e in enumerate(s.ins) if attr_chain(e) == 'self.zero_idx')
+            zero = () if s.opaque else tuple(k for k, e in enumerate(s.ins) if attr_chain(e) == 'self.zero_idx')   # opaque site: every row counts as reachable
             reach[s.lut.id] = reach.get(s.lut.id, 0) | mask(zero)
     return reach
 
@@ -127,7 +127,7 @@ def run(rep: Report, repo: Repo):
     weights, lut_col, z_col, _ = simtab.wave_operand_bits(repo)
     vt = simtab.var_tables(weights)
     simmod, init = simops.simops_init(repo)
-    sites = simops.op_sites(init)
+    sites = simops.op_sites(init, tolerant=True)
     rep.note(f'sim.py: {len(luts)} uint16 constants, {len(rows)} prefix rows, {len(sites)} ops.append sites; '
              f'LUT bit weights from _wave_eval: {weights}')
     rep.floor('LUT constants', len(luts), 33)
@@ -186,9 +186,15 @@ def run(rep: Report, repo: Repo):
             rep.violate('C01.prefix-row', simmod, '<module>', f'kind_prefixes[{p!r}] = {names}',
                         f'prefix {p!r} must select {exp} for 4/3/2 connected inputs, table has {names}', node=knode)
 
-    check_arity_selection(rep, simmod, init, rows, luts, weights)
-    if not translation_evaluated(rep, simmod, init, rows):
-        check_wiring(rep, simmod, init, sites)
+    evaluated = translation_evaluated(rep, simmod, init, rows)
+    try:
+        check_arity_selection(rep, simmod, init, rows, luts, weights)
+    except (ModelError, AnchorError) as e:
+        if not evaluated:
+            raise
+        rep.note(f'C01.arity: {e}; the arity selection is decided by the evaluated translation (C01.wiring), which covers every pin pattern')
+    if not evaluated:
+        check_wiring(rep, simmod, init, simops.op_sites(init))
 
     # ---- the 2-valued chains
     lmod, chains = chains_2v(repo)
@@ -453,7 +459,7 @@ def wiring_rules(rep, repo):
     rows, _kp = simtab.kind_prefixes(repo)
     simmod, init = simops.simops_init(repo)
     if not translation_evaluated(rep, simmod, init, rows):
-        check_wiring(rep, simmod, init, simops.op_sites(init))
+        check_wiring(rep, simmod, init, simops.op_sites(init))      # (not tolerant: the structural form needs the columns)
 
 
 def check_wiring(rep, simmod, init, sites):
